@@ -102,3 +102,5 @@ open Csproto
 #print axioms Csproto.C01.Source.source_roundtrip_packed_int32
 #print axioms Csproto.Bridge.EncoderFuncs.EncodeBytes_refines
 #print axioms Csproto.C01.Source.source_roundtrip_bytes
+#print axioms Csproto.C01.Source.source_roundtrip_packed_sint64
+#print axioms Csproto.C01.Source.source_roundtrip_packed_int64
